@@ -9,7 +9,8 @@ if os.path.exists(p):
         f = l.rstrip("\n").split("\t")
         res[f[0]] = [c.split(":")[0] for c in f[1:] if "VIOLATION" in c]
 rows = []
-for d in sorted(glob.glob(os.path.join(HERE, "seeded/C*-[mn]*"))):
+neutral = set()
+for d in sorted(glob.glob(os.path.join(HERE, "seeded/C*-[a-z][0-9]"))):
     i = os.path.basename(d)
     m = json.load(open(os.path.join(d, "meta.json")))
     summ = re.sub(r"\s+", " ", str(m.get("summary", ""))).replace("|", "/")
@@ -17,12 +18,16 @@ for d in sorted(glob.glob(os.path.join(HERE, "seeded/C*-[mn]*"))):
     caught = res.get(i)
     own = i.split("-")[0]
     c = "not evaluated" if caught is None else (", ".join(caught) if caught else "**missed**")
+    note = os.path.join(d, "NOTE.txt")
+    if os.path.exists(note) and not caught:
+        c = "not a breaking change any more (see seeded/%s/NOTE.txt)" % i
+        neutral.add(i)
     rows.append(f"| {i} | {summ[:170]} | {needs[:150]} | {c} |")
 tbl = "| change | what was changed | needs, to manifest | quick checks that report a VIOLATION |\n|---|---|---|---|\n" + "\n".join(rows)
 n = len(rows)
 ncaught = sum(1 for i in res if res[i])
 nown = sum(1 for i in res if i.split("-")[0] in res[i])
-tbl += f"\n\n{ncaught} of {len(res)} evaluated changes are reported by at least one quick check, {nown} by the check of the property they were written against.\n"
+tbl += f"\n\n{ncaught} of {len(res) - len(neutral)} evaluated breaking changes are reported by at least one quick check, {nown} by the check of the property they were written against" + (f"; {len(neutral)} change(s) stopped being breaking after a repair of /repo" if neutral else "") + ".\n"
 dp = os.path.join(HERE, "DESIGN.md")
 s = open(dp).read()
 a = s.index("<!-- SEEDED_TABLE_BEGIN -->") if "<!-- SEEDED_TABLE_BEGIN -->" in s else None
